@@ -12,6 +12,7 @@ import (
 	"net/http"
 	"os"
 	"path/filepath"
+	"strings"
 	"sync"
 	"time"
 
@@ -125,7 +126,7 @@ func (s *srvHandle) close() {
 
 func newServer(mode string, caSeed []byte, ids []*ident) *srvHandle {
 	env.Init()
-	s := &srvHandle{mode: mode, ca: newAuthority(caSeed), conns: map[string]*grpc.ClientConn{}, https: map[string]*http.Client{}}
+	s := &srvHandle{mode: mode, ca: newAuthorityShape(caSeed, strings.Contains(mode, "+inter")), conns: map[string]*grpc.ClientConn{}, https: map[string]*http.Client{}}
 	var err error
 	s.dir, err = os.MkdirTemp("", "c02srv")
 	must(err)
@@ -277,6 +278,19 @@ func registerServerOps() {
 		}
 		return grpcAny(cc, a[1], optBytes(rest[0]), core.UnHex(rest[1]), optBytes(rest[2]))
 	})
+	// srv.detok handle mode cert forged tok n (conn v tok)×n : Detokenize over the TLS connection of the client holding
+	// `cert`; the trailing history (every value tokenized in this world so far, with the identity of the connection
+	// it arrived on) is for the model
+	core.Register("C02.srv.detok", func(a []string) string {
+		s := srv(a[0])
+		d := parseCertDesc(a[2:])
+		rest := a[2+certTokens:]
+		cc, err := s.grpcConn(d)
+		if err != nil {
+			return "noconn"
+		}
+		return grpcAny(cc, "Detokenize", optBytes(rest[0]), core.UnHex(rest[1]), nil)
+	})
 	// srv.http handle op cert data extraClientId : the HTTP API (v2, JSON) over TLS with the client certificate
 	// `cert`; extraClientId (hex or none) is smuggled into the body. Result `<status> <data>`.
 	core.Register("C02.srv.http", func(a []string) string {
@@ -315,6 +329,15 @@ func registerServerOps() {
 			return fmt.Sprintf("%d unparsable", resp.StatusCode)
 		}
 		return fmt.Sprintf("%d %s", resp.StatusCode, core.Hex(b))
+	})
+	// srv.append handle cert : from now on every client of this server appends the (public) certificate of the
+	// described client to what it sends in the handshake – after its own certificate and the intermediate
+	core.Register("C02.srv.append", func(a []string) string {
+		s := srv(a[0])
+		c, _, err := s.ca.issue(parseCertDesc(a[1:]), false)
+		must(err)
+		s.ca.appended = append(s.ca.appended, c.Certificate[0])
+		return "ok"
 	})
 	// srv.plant handle id value : a value tokenized for `id` over another entry point that shares the token
 	// storage (AcraServer, the HTTP API): the token it got
